@@ -26,6 +26,7 @@ type Case struct {
 	Shape []fileSpec `json:"shape,omitempty"`
 	FailF int        `json:"fail_file"`          // 0-based index of the file holding the failing statement (-1 none)
 	FailK int        `json:"fail_stmt"`          // 0-based index of the failing statement
+	Fail2 int        `json:"fail_stmt2,omitempty"` // a second failing statement later in the same file (0 = none): fail, repair, fail again, repair
 	Count int        `json:"count"`              // apply count argument (0 = all)
 	State string     `json:"state,omitempty"`    // dry-run start state: fresh | partial | full
 	Scen  string     `json:"scenario,omitempty"` // schema apply scenario
@@ -37,6 +38,16 @@ func sid(f, i int) int { return (f+1)*10 + i + 1 }
 const failing = "INSERT INTO no_such_table VALUES (1)"
 
 func files(c Case, repaired bool) map[string]string {
+	lvl := 0
+	if repaired {
+		lvl = 2
+	}
+	return filesLvl(c, lvl)
+}
+
+// filesLvl: level 0 = nothing repaired, 1 = the first failing statement repaired, 2 = all repaired.
+func filesLvl(c Case, lvl int) map[string]string {
+	repaired := lvl >= 1
 	out := map[string]string{}
 	for f, fs := range c.Shape {
 		var b strings.Builder
@@ -48,6 +59,8 @@ func files(c Case, repaired bool) map[string]string {
 			case f == 0 && i == 0:
 				b.WriteString("CREATE TABLE journal (sid integer NOT NULL);\n")
 			case f == c.FailF && i == c.FailK && !repaired:
+				b.WriteString(failing + ";\n")
+			case f == c.FailF && c.Fail2 > 0 && i == c.Fail2 && lvl < 2:
 				b.WriteString(failing + ";\n")
 			default:
 				fmt.Fprintf(&b, "INSERT INTO journal (sid) VALUES (%d);\n", sid(f, i))
@@ -224,6 +237,18 @@ func evalMigrateFail(c Case) (problems []string, skipped string) {
 	}
 	if got.String() != want.String() {
 		bad("after the failing run: %s; the transaction mode promises: %s", got, want)
+	}
+	if c.Fail2 > 0 {
+		// repair only the first failing statement: the next run must fail again, later in the same file.
+		if err := w.WriteDir("migrations", filesLvl(c, 1)); err != nil {
+			return []string{"harness: " + err.Error()}, ""
+		}
+		rr := w.Run(nil, applyArgs(w, c)...)
+		if rr.Exit == 0 {
+			bad("the second failing statement was reached but the command exited 0: %s", rr)
+		} else if !strings.Contains(rr.Stdout+rr.Stderr, "no_such_table") {
+			bad("after repairing the first failing statement the run fails for another reason than the second one: %s", rr)
+		}
 	}
 	// repair the file, re-hash, run to the end: same final state as a run that never failed.
 	if err := w.WriteDir("migrations", files(c, true)); err != nil {
@@ -606,6 +631,20 @@ func cases(tier string) []Case {
 			}
 		}
 	}
+	// fail, repair, fail again later in the same file, repair (every pair of positions).
+	for _, sh := range [][]fileSpec{{{N: 3}}, {{N: 4}}, {{N: 1}, {N: 3}}} {
+		f := len(sh) - 1
+		for k1 := 0; k1 < sh[f].N; k1++ {
+			for k2 := k1 + 1; k2 < sh[f].N; k2++ {
+				if f == 0 && k1 == 0 {
+					continue
+				}
+				for _, mode := range []string{"file", "all", "none"} {
+					cs = append(cs, Case{Kind: "migrate_fail", Mode: mode, Shape: sh, FailF: f, FailK: k1, Fail2: k2})
+				}
+			}
+		}
+	}
 	for _, st := range []string{"fresh", "partial", "one", "full", "dirty"} {
 		for _, mode := range []string{"file", "all", "none"} {
 			for _, n := range []int{0, 1} {
@@ -651,7 +690,7 @@ func classify(c Case, problems []string) string {
 
 func Run(r *report.Run) {
 	defer clih.Cleanup()
-	r.Rule = "real CLI on real SQLite files: (1) `migrate apply`: directory shapes (1-3 files x 1-3 statements) x a really failing statement at every position x tx-mode {file, all, none} x per-file txmode directive on the failing / preceding file x apply count {all, 1, 2}: the state after the failure (journal rows written by the statements themselves + revision rows, read by our own connection) must equal what the mode promises, and after repairing the file and re-running the full dump must equal that of a run that never failed; (2) `migrate apply --dry-run` from 5 start states (fresh, partially applied, one file applied, fully applied, non-empty without history) x modes x count x {--baseline, --allow-dirty}: dump and directory byte-identical; (3) `schema apply` on populated tables whose plan fails midway on the data, default / file / none tx-mode, and --dry-run; non-trivial = every case; distinct = the case tuple"
+	r.Rule = "real CLI on real SQLite files: (1) `migrate apply`: directory shapes (1-3 files x 1-3 statements) x a really failing statement at every position x tx-mode {file, all, none} x per-file txmode directive on the failing / preceding file x apply count {all, 1, 2} (plus every pair of failing positions in one file, repaired one after the other): the state after the failure (journal rows written by the statements themselves + revision rows, read by our own connection) must equal what the mode promises, and after repairing the file and re-running the full dump must equal that of a run that never failed; (2) `migrate apply --dry-run` from 5 start states (fresh, partially applied, one file applied, fully applied, non-empty without history) x modes x count x {--baseline, --allow-dirty}: dump and directory byte-identical; (3) `schema apply` on populated tables whose plan fails midway on the data, default / file / none tx-mode, and --dry-run; non-trivial = every case; distinct = the case tuple"
 	r.Assumptions = []string{
 		"after a repair the hash / partial_hashes columns of the revision row legitimately differ from a never-failed run and are masked; timestamps are masked",
 		"`--tx-mode all` with per-file txmode directives is rejected by the CLI and not enumerated",
